@@ -46,6 +46,9 @@ THEOREMS = ['C18_run_fresh_state', 'C18_history_independent',
             'C18_deterministic_model', 'C18_full_run_fresh_state',
             'C18_full_history_independent',
             'C18_full_deterministic_model', 'C18_upstream_state_relevant',
+            'C18_stage_history_independent',
+            'C18_leaky_stage_depends_on_history', 'C18_stage_shapes_linked',
+            'C18_history_independent_linked',
             'C18_volume_text_order_irrelevant',
             'C18_remove_keys_order_irrelevant',
             'C18_sorted_depends_on_set_only',
@@ -218,7 +221,7 @@ def _histogram(items):
 # (c) runtime sweep
 # ---------------------------------------------------------------------------
 
-def run_worker(runs, hashseed, scratch, tag, fork_each=False):
+def run_worker(runs, hashseed, scratch, tag, fork_each=False, env_extra=None):
     jobs = scratch / f'jobs_{tag}.json'
     out = scratch / f'out_{tag}.json'
     jobs.write_text(json.dumps({'runs': runs, 'fork_each': fork_each}))
@@ -228,6 +231,7 @@ def run_worker(runs, hashseed, scratch, tag, fork_each=False):
     env['PYTHONPATH'] = f'{common.REPO}:{HERE}'
     env['PYTHONDONTWRITEBYTECODE'] = '1'
     env['T4GC_SCRATCH'] = str(scratch)
+    env.update(env_extra or {})
     try:
         proc = subprocess.run([sys.executable, str(WORKER), str(jobs),
                                str(out)], env=env, capture_output=True,
@@ -258,6 +262,14 @@ def outcome(r):
     return (r['ok'], r['exc'], r['sha'])
 
 
+ENV_READS = {}      # variable -> (first job that read it, where)
+ENVIRONMENTS = [
+    {},
+    {'LC_ALL': 'C', 'LANG': 'C', 'TZ': 'Asia/Tokyo', 'HOME': '/nonexistent',
+     'COLUMNS': '40', 'DEBUG': '1', 'VERBOSE': '1', 'T4_DEBUG': '1'},
+    {'LC_ALL': 'C.UTF-8', 'LANG': 'en_US.UTF-8', 'TZ': 'America/Anchorage',
+     'USER': 'nobody', 'PYTHONUTF8': '1', 'NO_COLOR': '1'},
+]
 CACHE_FILES = ['deck.mcnp.cache', 'deck.surfaces.cache', 'deck.volumes.cache']
 
 
@@ -279,6 +291,16 @@ def check_side_effects(res, job, r, where):
                       f'modification time) by the conversion ({where})',
                       payload, found_input=True)
         clean = False
+    if r.get('module_changes'):
+        payload['observed'] = r['module_changes']
+        res.violation('impl-violation',
+                      'the conversion changed module-level / class-level '
+                      f'state of the converter: {r["module_changes"][:6]} '
+                      f'({where}; deck {job["tags"]})', payload,
+                      found_input=True)
+        clean = False
+    for item in r.get('env_reads', []):
+        ENV_READS.setdefault(item.split(' ')[0], (job, item))
     extra = [f for f in r['new_files']
              if not ('--cache' in job['args'] and f.startswith('deck.')
                      and f.endswith('.cache'))]
@@ -334,6 +356,38 @@ def cache_witness(res, scratch):
                        'args': ['--cache'], 'same_path': True},
              'expected_sha': fresh[0]['sha'], 'observed_sha': warm[2]['sha']},
             cls='cache_option_stale_disk_cache', found_input=True)
+
+
+def env_followup(res, fresh_res, hashseeds, jobs, scratch):
+    '''Every environment variable the converter's own code looked up during
+    the sweep (recorded by the worker's os.environ proxy) is varied on the
+    deck that read it: set to "1", set to "", unset.'''
+    res.extra['sweep']['environment_variables_read_by_the_converter'] = \
+        sorted(ENV_READS)
+    for var, (job, where) in sorted(ENV_READS.items())[:8]:
+        outs = []
+        for n, value in enumerate(['1', '', None]):
+            env_extra = {} if value is None else {var: value}
+            runs = [strip_job(job)]
+            saved = os.environ.pop(var, None) if value is None else None
+            try:
+                out, err = run_worker(runs, 0, scratch, f'e{var}_{n}',
+                                      env_extra=env_extra)
+            finally:
+                if saved is not None:
+                    os.environ[var] = saved
+            outs.append(None if out is None else outcome(out[0]))
+        res.count('env-followup')
+        if len({o for o in outs if o is not None}) > 1:
+            res.violation(
+                'impl-violation',
+                f'output depends on the environment variable {var} (read at '
+                f'{where}): set to "1" / "" / unset gives {outs} (deck '
+                f'{job["tags"]}, args {job["args"]})',
+                {'input': {'deck': job['deck'], 'args': job['args'],
+                           'encoding': job.get('encoding', 'utf-8'),
+                           'envs': [{var: '1'}, {var: ''}, {}]}},
+                found_input=True)
 
 
 def same_path_pairs(res, quick, rng, jobs, fresh_res, hashseeds, scratch):
@@ -418,12 +472,20 @@ def _sweep(res, tier, seed, rng, scratch):
     res.extra['sweep']['cwd_by_hash_seed'] = {str(k): str(v)
                                               for k, v in cwd_of.items()}
 
+    # ... and so does the environment (locale, time zone, HOME, a few
+    # "debug"-like variables)
+    env_of = {hs: ENVIRONMENTS[i % len(ENVIRONMENTS)]
+              for i, hs in enumerate(hashseeds)}
+    res.extra['sweep']['environment_by_hash_seed'] = {
+        str(k): v for k, v in env_of.items()}
+    ENV_READS.clear()
+
     def fresh(item):
         c, hs, ks = item
         out, err = run_worker([strip_job(jobs[k], want_text=(hs == 0),
                                          cwd=cwd_of[hs])
                                for k in ks], hs, scratch, f'f{c}_{hs}',
-                              fork_each=True)
+                              fork_each=True, env_extra=env_of[hs])
         return ks, hs, out, err
 
     fresh_res = {}
@@ -496,15 +558,17 @@ def _sweep(res, tier, seed, rng, scratch):
             if outcome(other) != outcome(ref):
                 res.violation(
                     'impl-violation',
-                    f'output depends on the hash seed or on the working '
-                    f'directory: PYTHONHASHSEED={hashseeds[0]} (cwd: worker) '
-                    f'gives {outcome(ref)}, PYTHONHASHSEED={hs} (cwd: '
-                    f'{cwd_of[hs]}) gives {outcome(other)} (deck '
+                    f'output depends on the hash seed, the working directory '
+                    f'or the environment: PYTHONHASHSEED={hashseeds[0]} (cwd: '
+                    f'worker) gives {outcome(ref)}, PYTHONHASHSEED={hs} (cwd: '
+                    f'{cwd_of[hs]}, env + {sorted(env_of[hs])}) gives '
+                    f'{outcome(other)} (deck '
                     f'{job["tags"]}, args {job["args"]})',
                     {'input': {'deck': job['deck'], 'args': job['args'],
                                'encoding': job.get('encoding', 'utf-8'),
                                'hashseeds': [hashseeds[0], hs],
-                               'cwds': [None, cwd_of[hs]]}},
+                               'cwds': [None, cwd_of[hs]],
+                               'envs': [{}, env_of[hs]]}},
                     found_input=True)
     res.extra['sweep']['converted_ok'] = n_ok
 
@@ -573,6 +637,7 @@ def _sweep(res, tier, seed, rng, scratch):
                    f'{len(histories)} histories ran', not werrors,
                    '; '.join(werrors[:3]))
     same_path_pairs(res, quick, rng, jobs, fresh_res, hashseeds, scratch)
+    env_followup(res, fresh_res, hashseeds, jobs, scratch)
     cache_witness(res, scratch)
     return jobs, fresh_res, hashseeds
 
@@ -653,6 +718,13 @@ def model_tie(res, tier, rng, jobs, fresh_res, hashseeds):
                                'encoding': job.get('encoding', 'utf-8')}},
                     found_input=True)
         n_in += 1
+        order_seen = cap.tr_order()
+        if order_seen and len(order_seen) >= 2:
+            res.count('tr-surf-set-order:' + (
+                'ascending' if order_seen == sorted(order_seen)
+                else 'NOT-ascending'))
+            if len(order_seen) > 5:
+                res.count('tr-surf-set:more-than-5-ids (table resized)')
         if expected is None:
             res.count('tie:outside-model')
             continue
@@ -776,12 +848,15 @@ def replay(path):
                'encoding': inp.get('encoding', 'utf-8')}
         seeds = inp.get('hashseeds') or [inp.get('hashseed', 0)]
         cwds = inp.get('cwds') or [None] * len(seeds)
+        envs = inp.get('envs') or [{}]
+        seeds = list(seeds) + [seeds[-1]] * (len(envs) - len(seeds))
         for n, hs in enumerate(seeds):
             cwd = cwds[n] if n < len(cwds) else None
+            env_extra = envs[n] if n < len(envs) else {}
             out, err = run_worker([strip_job(job, cwd=cwd)], hs, scratch,
-                                  f'r{n}_{hs}')
-            print(f'fresh process, PYTHONHASHSEED={hs}, cwd={cwd}:',
-                  out[0] if out else err)
+                                  f'r{n}_{hs}', env_extra=env_extra)
+            print(f'fresh process, PYTHONHASHSEED={hs}, cwd={cwd}, env + '
+                  f'{env_extra}:', out[0] if out else err)
         if inp.get('history') is not None:
             slot = 'shared' if inp.get('same_path') else None
             runs = [strip_job(h, slot=slot) for h in inp['history']]
